@@ -1,13 +1,13 @@
 SPECIFICATION Spec
 CONSTANTS
-  StickyHyphen = FALSE
+  StickyHyphen = TRUE
   ShippedSetsLink = FALSE
-  ShippedCharIds = TRUE
-  ShippedLinkBlocks = TRUE
+  ShippedCharIds = FALSE
+  ShippedLinkBlocks = FALSE
   ShippedTitleCase = FALSE
   Dims <- DimsNone
   LabelSets = {"plain"}
-  MaxNs = 3
+  MaxNs = 1
   MaxComps = 2
   TitlePool <- TitlesSmall
 INVARIANT NamespaceOfEachComponent
